@@ -266,6 +266,7 @@ def check(src, rep):
     emit(rep, m, [r for r in conformance(m) if r.instance in ("emit", "start")], {"row": "R5"})
     from sa.cross import include
     include(rep, src, "C02", {"R1"}, "R5", "every octet received between two flags is appended to the frame exactly once, un-stuffed, in input order (the reader's per-octet step refines the reference automaton)")
+    include(rep, src, "C03", {"O4", "O5"}, "R1", "the FCS test behind is_valid is `running register == 0xF0B8` (a frame is reported valid exactly when its check sequence matches, not for a second residue)")
     include(rep, src, "C16", {"R1"}, "R5", "the octets of a returned frame are the un-stuffed input between its two flags (no per-frame state of an earlier frame is applied to it)")
     rep.floor("accessors analysed", rep.analysed.get("accessors", 0), 9)
     rep.floor("appending rows", sum(1 for sp in m.paths if m.feasible(sp) and sp.post.appends), 4)
